@@ -236,19 +236,25 @@ EnvRes(D, p) ==
                asked |-> {c \in T : q[p][c].sdh}]]
 
 (* ---- actions ---------------------------------------------------------------------------------- *)
-\* a deviation is recorded only when it changes the result of the step
+\* A deviation is recorded (variable dev) only when it changes the result of the step.
+\* RecvResult: the result of the message under deviations D with tie choices X, Y, Z, or "none"
+RecvResult(D, p, full, ents, X, Y, Z) ==
+  LET s == Stage1(D, p, full, ents)
+  IN IF ~ValidXY(s, X, Y) THEN <<"none">>
+     ELSE LET t == Stage2(D, s, X, Y)
+          IN IF ~ValidZ(t, Z) THEN <<"none">> ELSE <<"ok", Stage3(t, Z)>>
+EffRecv(D, p, full, ents, X, Y, Z, r) ==
+  IF D = {} \/ RecvResult({}, p, full, ents, X, Y, Z) = <<"ok", r>> THEN {}
+  ELSE {d \in D : RecvResult(D \ {d}, p, full, ents, X, Y, Z) # <<"ok", r>>}
+
 ReceiveCore(D, p, full, ents, s, t, X, Y, Z) ==
   /\ ValidZ(t, Z)
   /\ LET r == Stage3(t, Z)
-     IN /\ \A d \in D : LET s0 == Stage1(D \ {d}, p, full, ents)
-                        IN \/ ~ValidXY(s0, X, Y)
-                           \/ LET t0 == Stage2(D \ {d}, s0, X, Y)
-                              IN ~ValidZ(t0, Z) \/ Stage3(t0, Z) # r
-        /\ ledger' = [ledger EXCEPT ![p] = r.L]
+     IN /\ ledger' = [ledger EXCEPT ![p] = r.L]
         /\ ghost'  = [ghost EXCEPT ![p] = r.G]
         /\ q'      = [q EXCEPT ![p] = r.Q]
         /\ ov'     = r.ov
-        /\ dev'    = dev \cup D
+        /\ dev'    = dev \cup EffRecv(D, p, full, ents, X, Y, Z, r)
         /\ out'    = NoOut
         /\ UNCHANGED <<cfg, bs>>
 \* X: evicted existing wants, Y: admitted overflow wants, Z: admitted overflow wants whose task survived
@@ -260,9 +266,8 @@ Receive(D, p, full, ents, X, Y, Z) ==
 AddBlock(D, c) ==
   /\ bs' = bs \cup {c}
   /\ LET r == AddRes(D, c)
-     IN /\ \A d \in D : AddRes(D \ {d}, c) # r
-        /\ q' = r
-  /\ dev' = dev \cup D
+     IN /\ q' = r
+        /\ dev' = dev \cup (IF D = {} \/ AddRes({}, c) = r THEN {} ELSE {d \in D : AddRes(D \ {d}, c) # r})
   /\ out' = NoOut /\ ov' = NoOv
   /\ UNCHANGED <<cfg, ledger, ghost>>
 
@@ -274,12 +279,12 @@ RemoveBlock(c) ==
 Envelope(D, p) ==
   /\ QDom(q[p]) # {}
   /\ LET r == EnvRes(D, p)
-     IN /\ \A d \in D : EnvRes(D \ {d}, p) # r
-        /\ ledger' = [ledger EXCEPT ![p] = r.L]
+     IN /\ ledger' = [ledger EXCEPT ![p] = r.L]
         /\ ghost'  = [ghost EXCEPT ![p] = r.G]
         /\ out'    = r.out
+        /\ dev' = dev \cup (IF D = {} \/ EnvRes({}, p) = r THEN {} ELSE {d \in D : EnvRes(D \ {d}, p) # r})
   /\ q' = [q EXCEPT ![p] = EmptyQ]
-  /\ dev' = dev \cup D /\ ov' = NoOv
+  /\ ov' = NoOv
   /\ UNCHANGED <<cfg, bs>>
 
 (* ---- model-checking universe ------------------------------------------------------------------- *)
